@@ -9,7 +9,6 @@ ENTRY_POINTS = {
     "ParserConfig::parse_request": ("ParserConfig::parse_request", "request"),
     "ParserConfig::parse_request_with_uninit_headers": ("ParserConfig::parse_request_with_uninit_headers", "request"),
     "Response::parse": ("Response::<'h, 'b>::parse", "response"),
-    "Response::parse_with_uninit_headers": ("Response::<'h, 'b>::parse_with_uninit_headers", "response"),
     "ParserConfig::parse_response": ("ParserConfig::parse_response", "response"),
     "ParserConfig::parse_response_with_uninit_headers": ("ParserConfig::parse_response_with_uninit_headers", "response"),
     "parse_headers": ("parse_headers", "headers"),
